@@ -3138,7 +3138,11 @@ impl<'s> Semantics<'s> {
 
             let value = self.operand_load(block, &detail.operands[0])?;
 
-            self.mode().push_value(block, value)?;
+            // the value pushed is the one before the stack pointer moves (push rsp)
+            let temp = self.temp(0, value.bits());
+            block.assign(temp.clone(), value);
+
+            self.mode().push_value(block, temp.into())?;
 
             block.index()
         };
